@@ -6,11 +6,17 @@ import (
 	"fmt"
 	"io"
 	"strings"
+	"time"
 
+	"github.com/gorilla/websocket"
+
+	"tunnox-core/internal/client/transport"
 	"tunnox-core/internal/packet"
+	"tunnox-core/internal/protocol/adapter"
 	"tunnox-core/internal/stream"
 	"tunnox-core/verifsim/simnet"
 	"tunnox-core/verifsim/simrt"
+	"tunnox-core/verifsim/simws"
 )
 
 // C01 — packet framing round-trips however the transport chunks the bytes.
@@ -66,7 +72,8 @@ func c01Size(c *simrt.Choice, tier string) int {
 	case 8:
 		return 1<<20 - 2 + c.Intn(5, "size")
 	case 9:
-		if tier == "thorough" && c.Intn(6, "size.max") == 5 {
+		// the maximum body size (costly: a sixth of this class in thorough, a twelfth in quick)
+		if d := c.Intn(12, "size.max"); d == 11 || (tier == "thorough" && d >= 10) {
 			return 16*1024*1024 - c.Intn(2, "size")
 		}
 		return 100000 + c.Intn(200000, "size")
@@ -103,8 +110,9 @@ func init() {
 		Rule: "each run draws a packet sequence (1-12 packets over all base types, compression flag, body sizes biased to 0,1,2..5, pool/32K/64K/1M boundaries, max body in thorough) and a transport " +
 			"(stream or message contract, segmentation law: all/1-byte/1-7/MTU/cut-set around header offsets/mixed, bounded or unbounded buffer); writer and reader tasks are interleaved by the scheduler; in a third of the runs a keep-alive task writes heartbeats on the same processor concurrently (oracle: decoded sequence is a merge of both writers), a fifth of the small bodies take the rate-limited chunked write path, half of the runs carry reverse traffic. " +
 			"A run is non-trivial when at least one Read returned fewer bytes than requested inside a packet header or body (a cut actually happened) or several packets were coalesced into one buffer; distinct = distinct (schedule hash) among those.",
-		Real: []string{"internal/stream StreamProcessor.WritePacket/ReadPacket", "internal/stream/compression", "internal/utils buffer pool", "internal/packet"},
-		Stub: []string{"transport: simnet link implementing the TCP/QUIC/KCP stream contract or the wsServerConn message contract"},
+		Real: []string{"internal/stream StreamProcessor.WritePacket/ReadPacket", "internal/stream/compression", "internal/stream rate limiter (token bucket)", "internal/utils buffer pool", "internal/packet",
+			"internal/protocol/adapter wsServerConn/wsClientConn and internal/client/transport WebSocketStreamConn over a real gorilla/websocket pair (a sixth of the runs; peer frames natively or re-frames the byte stream into messages that split headers/coalesce packets)"},
+		Stub: []string{"byte transport underneath: simnet link implementing the TCP/QUIC/KCP stream contract, or (without gorilla) the message contract of the WebSocket wrappers"},
 		Assumptions: []string{"transports deliver every byte in order (loss belongs to C05's truncation clause)", "JsonCommand/CommandResp packets carry a CommandPacket; other types carry a Payload"},
 		Opt: func(tier string) simrt.Options {
 			return simrt.Options{MaxSteps: 3000000}
@@ -154,6 +162,11 @@ func c01Run(w *simrt.World, tier string) {
 			}
 		}
 		pkts = append(pkts, p)
+	}
+	// a sixth of the runs: the REAL WebSocket connection wrappers over a real gorilla/websocket pair
+	if total <= 2<<20 && c.Intn(6, "net.ws") == 5 {
+		c01RunWS(w, cfg, pkts)
+		return
 	}
 	// 1-byte and tiny laws only for modest totals
 	if total > 256<<10 && (cfg.LawAB == simnet.LawOne || cfg.LawAB == simnet.LawSmall || cfg.Capacity == 7 || cfg.Capacity == 64) {
@@ -382,6 +395,14 @@ func (d *c01dir) check(w *simrt.World, cfg simnet.LinkConfig, suffix string) boo
 		w.Violationf("C01:extra-packet"+suffix, "[%s] decoded %d packets but only %d were written; extra: type %#x len %d", d.name, len(got), len(accepted), byte(got[len(accepted)].PacketType), len(got[len(accepted)].Payload))
 		return false
 	}
+	if d.dstConn == nil {
+		// WebSocket runs: the writer closes cleanly after its last packet, so the reader must end at a packet boundary
+		if !errors.Is(rerr, io.EOF) {
+			w.Violationf("C01:alignment:ws-trailing"+suffix, "[%s] all %d packets decoded but the reader then failed with %v instead of a clean end of stream", d.name, len(accepted), rerr)
+			return false
+		}
+		return true
+	}
 	if d.dstConn.Pending() != 0 || d.dstConn.BytesRead() != d.srcConn.BytesWritten() {
 		w.Violationf("C01:alignment"+suffix, "[%s] after the last packet %d bytes remain unread (read %d of %d)", d.name, d.dstConn.Pending(), d.dstConn.BytesRead(), d.srcConn.BytesWritten())
 		return false
@@ -424,4 +445,186 @@ func sortInt64(s []int64) {
 			s[j], s[j-1] = s[j-1], s[j]
 		}
 	}
+}
+
+// ---- real WebSocket wrappers ------------------------------------------------------------
+
+// c01capture is the io.Writer of the "foreign framing" peer: it records the byte stream produced by the
+// real WritePacket so that the harness can cut it into WebSocket messages of its own choosing.
+type c01capture struct{ buf bytes.Buffer }
+
+func (c *c01capture) Write(p []byte) (int, error) { return c.buf.Write(p) }
+func (c *c01capture) Read(p []byte) (int, error)  { return 0, io.EOF }
+
+// c01RunWS runs the packet sequence through the product's real WebSocket connection wrappers
+// (adapter.wsServerConn, adapter.wsClientConn, client/transport.WebSocketStreamConn) on a real
+// gorilla/websocket pair over a simnet link. The writing peer either uses the opposite real wrapper
+// (one Write = one message) or frames the same byte stream differently (another SDK, a re-framing
+// proxy): messages that split headers, end mid-body or carry several packets.
+func c01RunWS(w *simrt.World, cfg simnet.LinkConfig, pkts []c01pkt) {
+	c := w.C
+	cfg.Message = false
+	cfg.Capacity = 0
+	cfg.NameA, cfg.NameB = "wscli", "wssrv"
+	cfg.LawAB = []simnet.Law{simnet.LawAll, simnet.LawMTU, simnet.LawMixed}[c.Intn(3, "ws.law")]
+	cfg.LawBA = []simnet.Law{simnet.LawAll, simnet.LawMTU, simnet.LawMixed}[c.Intn(3, "ws.law.rev")]
+	cfg.CutsAB = nil
+	readerKind := c.Intn(3, "ws.reader") // 0 server wrapper, 1 adapter client wrapper, 2 client transport wrapper
+	reframed := c.Intn(3, "ws.reframe") != 0
+	bufSize := []int{64 << 10, 4096, 1024}[c.Intn(3, "ws.bufsize")]
+	// chunk plan for the re-framing peer, cycled over the byte stream
+	type chunk struct{ kind, n int }
+	plan := make([]chunk, 24)
+	for i := range plan {
+		k := c.Intn(6, "ws.chunk.kind")
+		ch := chunk{kind: k}
+		switch k {
+		case 0: // to the end of the current packet (native framing granularity or coarser)
+		case 1: // a few bytes: splits headers
+			ch.n = 1 + c.Intn(9, "ws.chunk.n")
+		case 2: // current packet and the next one in one message
+		case 3: // end of the current packet plus a piece of the next header
+			ch.n = 1 + c.Intn(6, "ws.chunk.n")
+		case 4:
+			ch.n = 100 + c.Intn(70000, "ws.chunk.n")
+		default: // three packets in one message
+		}
+		plan[i] = ch
+	}
+	for i := range pkts {
+		pkts[i].rate = 0
+	}
+	var desc []string
+	for _, p := range pkts {
+		desc = append(desc, p.String())
+	}
+	w.Sample(fmt.Sprintf("transport=websocket reader=%s reframed=%v wsbuf=%d law=%s/%s packets=%s", []string{"wsServerConn", "wsClientConn", "WebSocketStreamConn"}[readerKind],
+		reframed, bufSize, simnet.LawNames[cfg.LawAB], simnet.LawNames[cfg.LawBA], strings.Join(desc, " ")))
+	w.State(fmt.Sprintf("ws/%d/%v/%d", readerKind, reframed, bufSize))
+	w.Probe("transport.websocket")
+
+	cli, srv, _, _, err := simws.Pair(w, cfg, bufSize)
+	if err != nil {
+		w.Violationf("harness:ws-handshake", "websocket handshake over the simulated link failed: %v", err)
+		return
+	}
+	var rdConn io.ReadWriteCloser
+	var wrRaw *websocket.Conn
+	switch readerKind {
+	case 0:
+		rdConn, wrRaw = adapter.NewWSServerConnForVerif(srv, "10.9.0.1:4000"), cli
+	case 1:
+		rdConn, wrRaw = adapter.NewWSClientConnForVerif(cli), srv
+	default:
+		rdConn, wrRaw = transport.NewWebSocketStreamConnForVerif(cli), srv
+	}
+	d := &c01dir{name: "ws", pkts: pkts}
+	dst := stream.NewStreamProcessor(rdConn, rdConn, w.Ctx)
+	d.rt = w.Spawn("reader-ws", func() {
+		for {
+			tp, nb, err := dst.ReadPacket()
+			if err != nil {
+				d.rerr = err
+				return
+			}
+			d.got = append(d.got, tp)
+			d.gotBytes = append(d.gotBytes, nb)
+		}
+	})
+	msgs, multi := 0, 0
+	d.wt = w.Spawn("writer-ws", func() {
+		if !reframed {
+			var wrConn io.ReadWriteCloser
+			switch readerKind {
+			case 0:
+				wrConn = transport.NewWebSocketStreamConnForVerif(cli)
+			default:
+				wrConn = adapter.NewWSServerConnForVerif(srv, "10.9.0.1:4000")
+			}
+			src := stream.NewStreamProcessor(wrConn, wrConn, w.Ctx)
+			for _, p := range pkts {
+				nb, err := src.WritePacket(&packet.TransferPacket{PacketType: p.typ, Payload: p.payload, CommandPacket: p.cmd}, p.compress, 0)
+				if err != nil {
+					if nb == 0 {
+						w.Probe("writer.rejected")
+						continue
+					}
+					w.Violationf("C01:writer-partial", "WritePacket failed after %d bytes of %v: %v", nb, p, err)
+					break
+				}
+				d.accepted = append(d.accepted, c01sent{p, nb})
+			}
+			wrConn.Close()
+			return
+		}
+		capt := &c01capture{}
+		src := stream.NewStreamProcessor(capt, capt, w.Ctx)
+		var ends []int
+		for _, p := range pkts {
+			nb, err := src.WritePacket(&packet.TransferPacket{PacketType: p.typ, Payload: p.payload, CommandPacket: p.cmd}, p.compress, 0)
+			if err != nil {
+				continue // nothing reaches the wire for a rejected packet (asserted by the plain-transport runs)
+			}
+			d.accepted = append(d.accepted, c01sent{p, nb})
+			ends = append(ends, capt.buf.Len())
+		}
+		data := capt.buf.Bytes()
+		endAfter := func(pos, k int) int { // end offset of the k-th packet boundary strictly after pos
+			for _, e := range ends {
+				if e > pos {
+					k--
+					if k == 0 {
+						return e
+					}
+				}
+			}
+			return len(data)
+		}
+		pos := 0
+		for i := 0; pos < len(data); i++ {
+			ch := plan[i%len(plan)]
+			var end int
+			switch ch.kind {
+			case 0:
+				end = endAfter(pos, 1)
+			case 1, 4:
+				end = pos + ch.n
+			case 2:
+				end = endAfter(pos, 2)
+			case 3:
+				end = endAfter(pos, 1) + ch.n
+			default:
+				end = endAfter(pos, 3)
+			}
+			if end > len(data) {
+				end = len(data)
+			}
+			if end-pos > 1 {
+				multi++
+			}
+			if err := wrRaw.WriteMessage(websocket.BinaryMessage, data[pos:end]); err != nil {
+				w.Logf("ws writer: %v", err)
+				break
+			}
+			msgs++
+			pos = end
+		}
+		wrRaw.WriteControl(websocket.CloseMessage, websocket.FormatCloseMessage(websocket.CloseNormalClosure, ""), time.Now().Add(time.Second))
+		wrRaw.Close()
+	})
+	d.wait()
+	rdConn.Close()
+	if reframed {
+		w.Probe("ws.reframed")
+		if multi >= 2 {
+			w.Probe("ws.remainder_path_twice")
+			w.Nontrivial()
+		}
+	} else {
+		w.Probe("ws.native")
+		if len(d.accepted) > 1 {
+			w.Nontrivial()
+		}
+	}
+	d.check(w, cfg, ":websocket")
 }
